@@ -540,7 +540,8 @@ impl<'a> FormatLines<'a> {
             cur_line: 1,
             newline_count: 0,
             errors: vec![],
-            line_buffer: String::with_capacity(config.max_width() * 2),
+            // A hint only: `max_width` may be as large as `usize::MAX`.
+            line_buffer: String::with_capacity(config.max_width().min(1024) * 2),
             current_line_contains_string_literal: false,
             format_line: config.file_lines().contains_line(name, 1),
             config,
